@@ -19,6 +19,8 @@ for d in sorted(glob.glob(os.path.join(VERIF, "seeded", "*"))):
             att = [a for a in c.get("attributable", []) if a.get("replay_reproduces_on_patched") and a.get("replay_clean_on_unpatched")]
             cls = ", ".join("%s@%s" % tuple(a["class_site"]) for a in att[:2] if a.get("class_site"))
             caught.append("**%s**: %s" % (prop, cls or "yes"))
+        elif c.get("exit") == 1:
+            caught.append("%s: alarm raised (exit 1) but the minimised replay did not reproduce" % prop)
         else:
             caught.append("%s: missed" % prop)
     summ = " ".join(m.get("summary", "").split())
